@@ -27,6 +27,10 @@ pub struct Case {
     pub vts: Vec<VtreeCase>,
     /// per variable: four selector bytes from which every semiring's weights are derived
     pub wsel: Vec<[u8; 4]>,
+    /// how the weight tables are built: 0 set_weight ascending, 1 descending, 2 WmcParams::new(dense map),
+    /// 3 placeholder values first, then overwritten in a scrambled order
+    #[serde(default)]
+    pub wmode: u8,
 }
 
 #[derive(Clone, Copy)]
@@ -50,12 +54,53 @@ fn wmc_of<'a, T: Semiring + 'static>(r: Rep<'a>, p: &WmcParams<T>) -> T {
     }
 }
 
+thread_local! {
+    static WMODE: std::cell::Cell<u8> = const { std::cell::Cell::new(0) };
+}
+
+/// build a weight table for labels 0..n in the way selected by the case (the result must not depend on it)
 fn params_of<T: Semiring>(n: usize, w: &dyn Fn(usize, bool) -> T) -> WmcParams<T> {
-    let mut p = WmcParams::<T>::default();
-    for v in 0..n {
-        p.set_weight(VarLabel::new_usize(v), w(v, false), w(v, true));
+    let mode = WMODE.with(|m| m.get()) % 4;
+    match mode {
+        1 => {
+            let mut p = WmcParams::<T>::default();
+            for v in (0..n).rev() {
+                p.set_weight(VarLabel::new_usize(v), w(v, false), w(v, true));
+            }
+            p
+        }
+        2 => {
+            let map: std::collections::HashMap<VarLabel, (T, T)> =
+                (0..n).map(|v| (VarLabel::new_usize(v), (w(v, false), w(v, true)))).collect();
+            WmcParams::new(map)
+        }
+        3 => {
+            let mut p = WmcParams::<T>::default();
+            // placeholders (the weights of another variable), then the real values in a scrambled order
+            for v in 0..n {
+                let o = (v + 1) % n;
+                p.set_weight(VarLabel::new_usize(v), w(o, true), w(o, false));
+            }
+            for k in 0..n {
+                let v = (k * 5 + 3) % n;
+                p.set_weight(VarLabel::new_usize(v), w(v, false), w(v, true));
+            }
+            // (k*5+3) mod n is a permutation only when gcd(5, n) = 1; finish with a plain sweep for n = 5
+            if n % 5 == 0 {
+                for v in 0..n {
+                    p.set_weight(VarLabel::new_usize(v), w(v, false), w(v, true));
+                }
+            }
+            p
+        }
+        _ => {
+            let mut p = WmcParams::<T>::default();
+            for v in 0..n {
+                p.set_weight(VarLabel::new_usize(v), w(v, false), w(v, true));
+            }
+            p
+        }
     }
-    p
 }
 
 /// normalised weights: every representation's count = brute force over the n variables
@@ -198,6 +243,8 @@ fn nat(n: u8) -> RationalSemiring {
 pub fn run_case(case: &Case, st: &mut Stats) -> CaseResult {
     let n = case.src.n();
     let t = case.src.tt();
+    WMODE.with(|m| m.set(case.wmode));
+    st.bump(&format!("weight_table_mode.{}", case.wmode % 4));
     let wsel: Vec<[u8; 4]> = (0..n).map(|v| case.wsel.get(v).copied().unwrap_or([1, 2, 3, 4])).collect();
     rsdd::verif_hooks::set_unique_table_capacity(Some(64));
     // --- representations -------------------------------------------------
@@ -553,7 +600,7 @@ pub struct Counts;
 impl SubCheckT for Counts {
     type Case = Case;
     const NAME: &'static str = "counts";
-    const RULE: &'static str = "a function (random truth table over <=6 variables with a random support mask, or a random CNF over <=7) represented as BDDs under 3 random orders (regular and negated pointers), SDDs under 2 random vtrees (second one uncompressed when n<=4; regular and negated) and, for CNFs, both top-down stores; weights whose low+high is the semiring's one: real dyadics k/8, all 7 exported finite fields (boundary + random residues), expected utility (p,u)/(1-p,-u), complex, degree-2 integer polynomials, rational indicators: every count = exact brute-force sum over models; evaluate() = truth-table bit on all 2^n assignments; arbitrary non-normalised weights on the canonical BDDs = the Shannon sum over the variables each sub-function depends on (order-aware), for all seven semirings. Non-trivial: non-constant function with >=3 support variables";
+    const RULE: &'static str = "a function (random truth table over <=6 variables with a random support mask, or a random CNF over <=7) represented as BDDs under 3 random orders (regular and negated pointers), SDDs under 2 random vtrees (second one uncompressed when n<=4; regular and negated) and, for CNFs, both top-down stores; weight tables built in four ways (set_weight ascending / descending / WmcParams::new / placeholders overwritten in a scrambled order), weights whose low+high is the semiring's one: real dyadics k/8, all 7 exported finite fields (boundary + random residues), expected utility (p,u)/(1-p,-u), complex, degree-2 integer polynomials, rational indicators: every count = exact brute-force sum over models; evaluate() = truth-table bit on all 2^n assignments; arbitrary non-normalised weights on the canonical BDDs = the Shannon sum over the variables each sub-function depends on (order-aware), for all seven semirings. Non-trivial: non-constant function with >=3 support variables";
     fn cases(tier: Tier) -> u32 {
         tier.pick(1600, 50_000)
     }
@@ -563,8 +610,9 @@ impl SubCheckT for Counts {
             proptest::collection::vec(order_keys_strategy(), 3),
             proptest::collection::vec(vtree_case_strategy(7, false), 2),
             proptest::collection::vec(any::<[u8; 4]>(), 8),
+            0u8..4,
         )
-            .prop_map(|(src, orders, vts, wsel)| Case { src, orders, vts, wsel })
+            .prop_map(|(src, orders, vts, wsel, wmode)| Case { src, orders, vts, wsel, wmode })
             .boxed()
     }
     fn run(case: &Case, st: &mut Stats) -> CaseResult {
